@@ -39,7 +39,7 @@ func c10Gen(rng *verifsim.RNG, idx int, tier string) *Plan {
 		p.Actions = append(p.Actions, rsAction(f-int64(rng.Dur(0, 400*time.Millisecond)), hostAddr(1)))
 	}
 
-	kinds := []string{"read-recoverable", "read-permission", "read-opaque", "timeouts", "write", "link", "fwd", "handler", "write-initial", "write-final"}
+	kinds := []string{"read-recoverable", "read-permission", "read-opaque", "timeouts", "write", "link", "fwd", "handler", "write-initial", "write-final", "write-inflight+link"}
 	if monitor {
 		kinds = []string{"read-recoverable", "read-permission", "read-opaque", "timeouts", "link"}
 	}
@@ -65,6 +65,15 @@ func c10Gen(rng *verifsim.RNG, idx int, tier string) *Plan {
 	case "write-final":
 		p.Faults = append(p.Faults, Fault{Seam: "write", Key: "mc", From: 0, Err: "ENOBUFS"})
 		p.Faults[0].From = 1 << 62 // armed by the horizon: see below
+	case "write-inflight+link":
+		// a slow transmission is in flight when a link event tears the connection
+		// down for another reason, and then fails: nobody is left to hear of it,
+		// and the task must still be re-established
+		lat := int64(rng.Dur(100*time.Millisecond, 1500*time.Millisecond))
+		p.Faults = append(p.Faults, Fault{Seam: "write", Key: []string{"uc", "mc", ""}[rng.Intn(3)], From: f, Count: rng.Range(1, 2), Lat: lat,
+			Err: []string{"ENOBUFS", "ENETDOWN", "EINVAL"}[rng.Intn(3)]})
+		p.Actions = append(p.Actions, rsAction(f+1000, hostAddr(0)), rsAction(f+2000, "::"),
+			Action{At: f + 600*nsMs + lat/2, Kind: "link", If: "eth0", Oper: "down"})
 	case "link":
 		p.Actions = append(p.Actions, Action{At: f, Kind: "link", If: "eth0", Oper: []string{"down", "down", "up", "dormant"}[rng.Intn(4)]})
 	case "fwd":
@@ -158,7 +167,7 @@ func c10Oracle(info *runInfo, res *verifsim.Result) {
 			fault = e
 			break
 		}
-		if e.K == "act.link" && e.S == "down" && e.Err == "" {
+		if e.K == "act.link" && e.S == "down" && e.Err == "" && e.If == ifn {
 			fault = e
 			break
 		}
@@ -331,7 +340,24 @@ func exitErr(e *verifsim.Event) string {
 }
 
 // lastHeld returns how long calls entered after seq were kept parked by the plan (0 here: plans of this property do not hold).
-func lastHeld(ev []verifsim.Event, seq int) int64 { return 0 }
+// lastHeld: how long after event seq the last call that was already in progress
+// then (a slow transmission, a slow receive or sysctl read) took to return: the
+// teardown of a connection waits for what is in flight on it.
+func lastHeld(ev []verifsim.Event, seq int) int64 {
+	var t0, d int64
+	for i := range ev {
+		if ev[i].Seq == seq {
+			t0 = ev[i].T
+		}
+	}
+	for i := range ev {
+		e := &ev[i]
+		if e.Seq > seq && e.Ref != 0 && e.Ref < seq && strings.HasSuffix(e.K, ".exit") && e.T-t0 > d {
+			d = e.T - t0
+		}
+	}
+	return d
+}
 
 // c10Alive: after the last fault the live generation must both listen and
 // answer. Evaluated for messages delivered at least 1 s after `since`.
